@@ -40,6 +40,8 @@ def Entry.isDel : Entry → Bool | .deleted => true | _ => false
 theorem c17_isSub_toPost (e : Entry) : e.toPost.isSub = e.isSub := by cases e <;> simp [Entry.toPost, PEntry.isSub, Entry.isSub]
 theorem c17_isDeleted_toPost (e : Entry) : e.toPost.isDeleted = e.isDel := by
   cases e <;> simp [Entry.toPost, PEntry.isDeleted, Entry.isDel]
+theorem c17_isMove_toPost (e : Entry) : e.toPost.isMove = e.isMove := by
+  cases e <;> simp [Entry.toPost, PEntry.isMove, Entry.isMove]
 theorem c17_isWriter1_toPost (e : Entry) : e.toPost.isWriter1 = e.isW1 := by
   cases e <;> simp [Entry.toPost, PEntry.isWriter1, Entry.isW1]
 
@@ -625,69 +627,88 @@ theorem c17_entry_ok (mp mr : Mapping) (k : String) (e : Entry) (hwf : keysOk (m
     | nil => simp [Entry.toPost, entryViolations]
     | cons h t =>
       simp only [Entry.toPost, entryViolations]
-      by_cases hgd : ((keyed h (postMap (mp ++ (k, Entry.move (h :: t)) :: mr))).all PEntry.isDeleted
-          || (h == k && (keyed h (postMap (mp ++ (k, Entry.move (h :: t)) :: mr))).length == 1)) = true
-      · simp only [hgd, if_true]
-        -- other entries keyed `k` are `sub` entries
-        have hkp : ∀ e', (k, e') ∈ mp → e'.isSub = true := by
+      -- other entries keyed `k` are `sub` entries
+      have hkp : ∀ e', (k, e') ∈ mp → e'.isSub = true := by
+        intro e' he'
+        have := hsplit.1 e' he'
+        cases hsb : e'.isSub with
+        | true => rfl
+        | false => exact absurd (by rw [hsb]; rfl) this
+      have hkr : ∀ e', (k, e') ∈ mr → e'.isSub = true := by
+        intro e' he'
+        have := hsplit.2 e' he'
+        cases hsb : e'.isSub with
+        | true => rfl
+        | false => exact absurd (by rw [hsb]; rfl) this
+      have subNotMove : ∀ e' : Entry, e'.isSub = true → e'.isMove = false ∧ e'.isDel = false := by
+        intro e' he'; cases e' <;> simp [Entry.isSub] at he' <;> simp [Entry.isMove, Entry.isDel]
+      have hl2 : loop2 (compileMap (mp ++ (k, Entry.move (h :: t)) :: mr)) o1
+          = loop2 (compileMap mr) (set k (deepGet (.obj (loop2 (compileMap mp) o1)) (h :: t)) (loop2 (compileMap mp) o1)) := by
+        rw [compileMap_append, loop2_append]
+        simp only [compileMap, Entry.compile, loop2]
+      have hkfin : get k a' = some (deepGet (.obj (loop2 (compileMap mp) o1)) (h :: t)) := by
+        rw [ha, c17_loop3_frameD _ _ (by
           intro e' he'
-          have := hsplit.1 e' he'
-          cases hsb : e'.isSub with
-          | true => rfl
-          | false => exact absurd (by rw [hsb]; rfl) this
-        have hkr : ∀ e', (k, e') ∈ mr → e'.isSub = true := by
-          intro e' he'
-          have := hsplit.2 e' he'
-          cases hsb : e'.isSub with
-          | true => rfl
-          | false => exact absurd (by rw [hsb]; rfl) this
-        have subNotMove : ∀ e' : Entry, e'.isSub = true → e'.isMove = false ∧ e'.isDel = false := by
-          intro e' he'; cases e' <;> simp [Entry.isSub] at he' <;> simp [Entry.isMove, Entry.isDel]
+          rcases c17_mem_split he' with h' | h' | h'
+          · exact (subNotMove e' (hkp e' h')).2
+          · rw [h']; rfl
+          · exact (subNotMove e' (hkr e' h')).2), hl2,
+          c17_loop2_frameM mr _ (fun e' he' => (subNotMove e' (hkr e' he')).1), get_set_same]
+      by_cases hg1 : (((keyed h (postMap (mp ++ (k, Entry.move (h :: t)) :: mr))).filter PEntry.isWriter1).isEmpty
+          && ((keyed h (postMap mp)).filter PEntry.isMove).isEmpty) = true
+      · simp only [hg1, if_true]
+        simp only [Bool.and_eq_true, List.isEmpty_iff] at hg1
         -- the first key of the path is written by nobody in loop 1, and by no move before this entry
-        have hA : (∀ e', (h, e') ∈ mp ++ (k, Entry.move (h :: t)) :: mr → e'.isW1 = false)
-            ∧ (∀ e', (h, e') ∈ mp → e'.isMove = false) := by
-          rcases Bool.or_eq_true_iff.mp hgd with hd | hd
-          · have hdel : ∀ e', (h, e') ∈ mp ++ (k, Entry.move (h :: t)) :: mr → e'.isDel = true := by
-              intro e' he'
-              have := (List.all_eq_true.mp hd) _ (mem_keyed_postMap _ he')
-              rw [c17_isDeleted_toPost] at this
-              exact this
-            have delNot : ∀ e' : Entry, e'.isDel = true → e'.isW1 = false ∧ e'.isMove = false := by
-              intro e' he'; cases e' <;> simp [Entry.isDel] at he' <;> simp [Entry.isW1, Entry.isMove]
-            exact ⟨fun e' he' => (delNot e' (hdel e' he')).1,
-              fun e' he' => (delNot e' (hdel e' (List.mem_append_left _ he'))).2⟩
-          · simp only [Bool.and_eq_true, beq_iff_eq] at hd
-            obtain ⟨hhk, hlen⟩ := hd
-            subst hhk
-            have hu := c17_keyed_len1_split hlen
-            constructor
-            · intro e' he'
-              rcases c17_mem_split he' with h' | h' | h'
-              · exact absurd h' (hu.1 e')
-              · rw [h']; rfl
-              · exact absurd h' (hu.2 e')
-            · intro e' he'; exact absurd he' (hu.1 e')
-        have hb1 : get h o1 = get h b := c17_loop1_frameW _ b b o1 hA.1 h1
-        have hl2 : loop2 (compileMap (mp ++ (k, Entry.move (h :: t)) :: mr)) o1
-            = loop2 (compileMap mr) (set k (deepGet (.obj (loop2 (compileMap mp) o1)) (h :: t)) (loop2 (compileMap mp) o1)) := by
-          rw [compileMap_append, loop2_append]
-          simp only [compileMap, Entry.compile, loop2]
+        have hA1 : ∀ e', (h, e') ∈ mp ++ (k, Entry.move (h :: t)) :: mr → e'.isW1 = false := by
+          intro e' he'
+          have := (List.filter_eq_nil_iff.mp hg1.1) _ (mem_keyed_postMap _ he')
+          rw [c17_isWriter1_toPost] at this
+          simpa using this
+        have hA2 : ∀ e', (h, e') ∈ mp → e'.isMove = false := by
+          intro e' he'
+          have := (List.filter_eq_nil_iff.mp hg1.2) _ (mem_keyed_postMap _ he')
+          rw [c17_isMove_toPost] at this
+          simpa using this
+        have hb1 : get h o1 = get h b := c17_loop1_frameW _ b b o1 hA1 h1
         have hb2 : get h (loop2 (compileMap mp) o1) = get h b := by
-          rw [c17_loop2_frameM mp o1 hA.2, hb1]
-        have hka : get k a' = some (deepGet (.obj b) (h :: t)) := by
-          rw [ha, c17_loop3_frameD _ _ (by
+          rw [c17_loop2_frameM mp o1 hA2, hb1]
+        rw [deepGet_congr t hb2] at hkfin
+        simp [hkfin, optBeq_refl]
+      · have hg1' : (((keyed h (postMap (mp ++ (k, Entry.move (h :: t)) :: mr))).filter PEntry.isWriter1).isEmpty
+          && ((keyed h (postMap mp)).filter PEntry.isMove).isEmpty) = false := by simpa using hg1
+        simp only [hg1', Bool.false_eq_true, if_false]
+        by_cases hg2 : (h != k && h != "version"
+            && ((keyed h (postMap (mp ++ (k, Entry.move (h :: t)) :: mr))).filter PEntry.isMove).length
+                == ((keyed h (postMap mp)).filter PEntry.isMove).length
+            && !(keyed h (postMap (mp ++ (k, Entry.move (h :: t)) :: mr))).any PEntry.isDeleted) = true
+        · simp only [hg2, if_true]
+          simp only [Bool.and_eq_true, bne_iff_ne, ne_eq, beq_iff_eq, Bool.not_eq_true'] at hg2
+          obtain ⟨⟨⟨hhk, hhv⟩, hlen⟩, hnd⟩ := hg2
+          have hnk : (k == h) = false := by simpa using (Ne.symm hhk)
+          -- no move onto `h` after this entry, `h` is not deleted
+          rw [postMap_append, keyed_append, List.filter_append, List.length_append] at hlen
+          simp only [postMap, keyed_cons, hnk, Bool.false_eq_true, if_false] at hlen
+          have hz : ((keyed h (postMap mr)).filter PEntry.isMove).length = 0 := by omega
+          have hmr : ∀ e', (h, e') ∈ mr → e'.isMove = false := by
             intro e' he'
-            rcases c17_mem_split he' with h' | h' | h'
-            · exact (subNotMove e' (hkp e' h')).2
-            · rw [h']; rfl
-            · exact (subNotMove e' (hkr e' h')).2), hl2,
-            c17_loop2_frameM mr _ (fun e' he' => (subNotMove e' (hkr e' he')).1), get_set_same,
-            deepGet_congr t hb2]
-        simp [hka, optBeq_refl]
-      · have : ((keyed h (postMap (mp ++ (k, Entry.move (h :: t)) :: mr))).all PEntry.isDeleted
-          || (h == k && (keyed h (postMap (mp ++ (k, Entry.move (h :: t)) :: mr))).length == 1)) = false := by
-          simpa using hgd
-        simp only [this, Bool.false_eq_true, if_false]
+            have := (List.filter_eq_nil_iff.mp (List.length_eq_zero_iff.mp hz)) _ (mem_keyed_postMap mr he')
+            rw [c17_isMove_toPost] at this
+            simpa using this
+          have hdel : ∀ e', (h, e') ∈ mp ++ (k, Entry.move (h :: t)) :: mr → e'.isDel = false := by
+            intro e' he'
+            have := List.any_eq_false.mp hnd _ (mem_keyed_postMap _ he')
+            rw [c17_isDeleted_toPost] at this
+            simpa using this
+          have hfin : get h a' = get h (loop2 (compileMap mp) o1) := by
+            rw [hax h hhv, c17_loop3_frameD _ _ hdel, hl2, c17_loop2_frameM mr _ hmr, get_set_other _ (Ne.symm hhk)]
+          rw [← deepGet_congr t hfin] at hkfin
+          simp [hkfin, optBeq_refl]
+        · have hg2' : (h != k && h != "version"
+            && ((keyed h (postMap (mp ++ (k, Entry.move (h :: t)) :: mr))).filter PEntry.isMove).length
+                == ((keyed h (postMap mp)).filter PEntry.isMove).length
+            && !(keyed h (postMap (mp ++ (k, Entry.move (h :: t)) :: mr))).any PEntry.isDeleted) = false := by
+            simpa using hg2
+          simp only [hg2', Bool.false_eq_true, if_false]
 
 /-- all entries: each judged knowing the entries written before it -/
 theorem c17_entries_ok (top : Bool) (m : Mapping) (hwf : keysOk m = true) (hsub : SubOk m) (b o1 a' : Obj)
